@@ -81,6 +81,10 @@ def _tool_run(case, cancel_at, record):
                     raise Violation(f"C17/{tool}/operation-failed-though-no-double-failed",
                                     f"{outcome!r} stdlib={ref_exc}", case=vcase)
             protocol_check(b.ctx, tool, vcase)
+            lazy = [f.name for f in b.fns.values() if f.invoked != f.calls]
+            if lazy and outcome[0] == "return":
+                raise Violation(f"C17/{tool}/awaitable-returned-by-a-callable-was-never-awaited",
+                                f"{[(f.name, f.invoked, f.calls) for f in b.fns.values()]}", case=vcase)
             if any(not s.seen for s in b.ctx.issued):
                 raise Violation(f"C17/{tool}/token-never-reached-the-loop", "", case=vcase)
         elif b.ctx.cancel_delivered:
@@ -338,6 +342,61 @@ def check_battery(case):
             "labels": {"subprocess-operations": out["done"]}}
 
 
+# ---- two tasks: one is suspended inside a tee child while the other closes it ---------------
+
+
+@st.composite
+def tee_close_cases(draw):
+    return {"n": draw(st.integers(1, 3)), "length": draw(st.integers(1, 3)), "susp": draw(st.integers(1, 2)),
+            "target": draw(st.sampled_from(["child", "handle"])), "lock": draw(st.booleans()),
+            "choices": draw(st.lists(st.integers(0, 2), max_size=20))}
+
+
+def check_tee_close(case):
+    import asyncstdlib as a
+    from ..driver import Scheduler, Lock
+    from .c09 import LazySource
+
+    record = []
+    undo = install_traps(record)
+    try:
+        ctx = Ctx("a")
+        src = LazySource(ctx, case["length"], case["susp"])
+        lock = Lock(ctx, "lock") if case["lock"] else None
+        handle = a.tee(src, case["n"], lock=lock) if lock else a.tee(src, case["n"])
+        children = list(handle)
+        errors = []
+
+        async def reader():
+            try:
+                async for _ in children[0]:
+                    pass
+            except RuntimeError as exc:
+                errors.append(repr(exc))
+
+        async def closer():
+            await ctx.suspend(("closer", 0))
+            try:
+                await (children[0].aclose() if case["target"] == "child" else handle.aclose())
+            except RuntimeError as exc:
+                errors.append(repr(exc))  # "already running": refusing at once is fine
+
+        sched = Scheduler(ctx, [("reader", reader()), ("closer", closer())], case["choices"], max_steps=500)
+        sched.run()
+    finally:
+        undo()
+    if record:
+        raise Violation("C17/tee-concurrent-close/asyncio-loop-access", f"{record[:3]}")
+    if ctx.foreign:
+        raise Violation("C17/tee-concurrent-close/foreign-suspension",
+                        f"{[repr(x)[:60] for x in ctx.foreign[:3]]} config={case}")
+    if sched.verdict:
+        raise Violation(f"C17/tee-concurrent-close/{sched.verdict}", f"config={case}")
+    errs = ctx.protocol_errors()
+    if errs:
+        raise Violation(f"C17/tee-concurrent-close/{errs[0][0]}", f"{errs[:2]}")
+
+
 @st.composite
 def batteries(draw, tier):
     names = draw(st.lists(st.sampled_from(ALL), min_size=12, max_size=12))
@@ -355,6 +414,8 @@ def shards(tier):
     for name, strat, runner in specials:
         out.append(Shard(name, (lambda case, runner=runner, name=name: check_special(case, runner, name)),
                          strategy=strat(tier), n=150, nontrivial=lambda c: False, thorough_mult=15))
+    out.append(Shard("tee-concurrent-close", check_tee_close, strategy=tee_close_cases(), n=400,
+                     nontrivial=lambda c: True, thorough_mult=10))
     out.append(Shard("sync-adapters", check_adapter, cases=lambda: [{"adapter": k} for k in _adapters()],
                      nontrivial=lambda c: True, exhaustive=True))
     out.append(Shard("no-asyncio-subprocess", check_battery, strategy=batteries(tier), n=4,
